@@ -60,7 +60,7 @@ for j in $(seq 0 $((JOBS - 1))); do
   mkdir -p "$WORK/art$j"
   S=$(( SEED * 64 + j + 1 ))
   "$FUZZ_BIN" -seed=$S -runs=$PER -len_control=0 -max_total_time=$TMAX -max_len=$MAXLEN \
-      -timeout=60 -report_slow_units=600 -rss_limit_mb=4096 -detect_leaks=0 -print_final_stats=1 -reload=1 $DICT \
+      -timeout=180 -report_slow_units=600 -rss_limit_mb=4096 -detect_leaks=0 -print_final_stats=1 -reload=1 $DICT \
       -artifact_prefix="$WORK/art$j/" "$WORK/corpus" >"$WORK/job$j.log" 2>&1 &
   PIDS+=($!)
 done
